@@ -4327,7 +4327,7 @@ TE_ROLES = {
     # times: move with the origin
     "start_time": "T", "tmp_start_time": "T", "end_time": "T", "tmp_end_time": "T",
     "t": "T", "t0": "T", "tau": "T", "time": "T", "times": "T", "times2": "T",
-    "control_times": "T",
+    "control_times": "T", "previous_time": "T",
     # durations / field values: invariant reals
     "dt": "D", "dt_": "D", "ratio": "D", "max_tau": "D", "field": "D", "field_derivative": "D",
     # integers
@@ -5426,7 +5426,7 @@ inductive MftOp where
 inductive CdwfOp where
   | time | getControls | applyPre | breakIfLast | getCaps | applyCaps | reshapeStates
   | fieldUpdate | aliasStates | aliasTime | record | progress | applyPost
-  | propagators | getMpos | applyP1 | applyMpo | applyP2
+  | fieldDerivative | propagators | getMpos | applyP1 | applyMpo | applyP2
   | appendStates | finalField | appendField | makeTimes | returnResult
   deriving DecidableEq, Repr
 '''
@@ -5929,6 +5929,10 @@ def _mf_cdwf(src, out):
                 raise Untranslatable(where + ": propagators call")
             info["prop"] = (c, where + ":  " + t)
             put("propagators")
+        elif tgt is not None and isinstance(s.targets[0], ast.Name) \
+                and _mf_eom_call(s.value, ("mean_field_system.field_eom",)) is not None:
+            info.setdefault("hoisted", {})[tgt] = (s, i)
+            put("fieldDerivative")
         elif tgt == "pt_mpos_list":
             c = _mf_listcomp_call(s.value, lambda f: f == "_get_pt_mpos")
             if c is None or len(c.args) != 2:
@@ -5985,8 +5989,22 @@ def _mf_cdwf(src, out):
     if _mf_norm(c.args[1]) != "field":
         raise Untranslatable(doc + ": the field argument is not the loop's `field`")
     args = _mf_eom_call(c.args[2], ("mean_field_system.field_eom",))
+    if args is not None:
+        # evaluated inside the comprehension over propagators_list: once per system
+        evals = "number_of_systems"
+    elif isinstance(c.args[2], ast.Name) and c.args[2].id in info.get("hoisted", {}):
+        hs = info["hoisted"][c.args[2].id]
+        if not pos["fieldUpdate"] < hs[1] < pos["propagators"]:
+            raise Untranslatable(doc + ": the derivative is not computed between the field update "
+                                 "and the propagators")
+        args = _mf_eom_call(hs[0].value, ("mean_field_system.field_eom",))
+        lets, stab, sub = loop_env(hs[1])
+        evals = "1"
     if args is None:
         raise Untranslatable(doc + ": the derivative is not a field_eom call")
+    out.append("/-- %s: how often field_eom is evaluated for the derivative handed to the "
+               "propagators of one step -/\ndef cdwf_fd_evals (number_of_systems : Nat) : Nat :=\n  %s\n"
+               % (doc.replace("-/", "- /"), evals))
     out.append(_mf_flt_def("cdwf_fd_time", lets, args[0], ["start_time", "dt", "step"], doc, subst=sub))
     out.append(_mf_select("cdwf_fd_states", args[1], stab, ["prev", "cur"], doc))
     if _mf_norm(args[2]) != "field":
@@ -6272,7 +6290,7 @@ def frag_meanfieldtimes(src):
 # in the dynamics (state or state.T) and how get_state normalises.
 # ---------------------------------------------------------------------------
 
-EXTRA_IMPORTS["GibbsLoop"] = "import Mathlib.Algebra.Ring.Defs\n"
+EXTRA_IMPORTS["GibbsLoop"] = "import Mathlib.Algebra.Ring.Defs\nimport Mathlib.Algebra.Field.Defs\n"
 
 _GL_TB = "oqupy/backends/tempo_backend.py"
 _GL_TP = "oqupy/tempo.py"
@@ -6801,6 +6819,119 @@ def _gl_compute(src, out):
                "def get_state_normalises : Bool := true\n" % (_GL_TP, fn.lineno))
 
 
+class _GLScalar:
+    """scalar integrand expressions of CustomSD -> Lean over a field F"""
+    expo = None        # Lean term of the local variable `expo`, once assigned
+
+    def tr(self, e):
+        if isinstance(e, ast.Name):
+            if e.id in ("w", "tau"):
+                return e.id
+            if e.id == "expo" and self.expo is not None:
+                return self.expo
+            raise Untranslatable("name %s in a thermal integrand" % e.id)
+        if isinstance(e, ast.Attribute):
+            if _gl_norm(e) == "self.temperature":
+                return "T"
+            raise Untranslatable("attribute %s in a thermal integrand" % _gl_norm(e))
+        if isinstance(e, ast.Constant):
+            v = e.value
+            if isinstance(v, complex) and v == 1j:
+                return "iUnit"
+            if isinstance(v, bool):
+                raise Untranslatable("boolean in a thermal integrand")
+            if isinstance(v, (int, float)) and v == int(v) and int(v) >= 0:
+                return "(%d : F)" % int(v)
+            raise Untranslatable("constant %r in a thermal integrand" % (v,))
+        if isinstance(e, ast.UnaryOp) and isinstance(e.op, ast.USub):
+            return "(-%s)" % self.tr(e.operand)
+        if isinstance(e, ast.BinOp):
+            if isinstance(e.op, ast.Pow):
+                if isinstance(e.right, ast.Constant) and isinstance(e.right.value, int) \
+                        and not isinstance(e.right.value, bool) and e.right.value >= 0:
+                    return "(%s ^ %d)" % (self.tr(e.left), e.right.value)
+                raise Untranslatable("power in a thermal integrand")
+            sym = {ast.Add: "+", ast.Sub: "-", ast.Mult: "*", ast.Div: "/"}.get(type(e.op))
+            if sym is None:
+                raise Untranslatable("operator in a thermal integrand")
+            return "(%s %s %s)" % (self.tr(e.left), sym, self.tr(e.right))
+        if isinstance(e, ast.Call):
+            ch = attr_chain(e.func)
+            if ch == ["np", "exp"] and len(e.args) == 1 and not e.keywords:
+                return "(E %s)" % self.tr(e.args[0])
+            if ch == ["self", "_spectral_density"] and _gl_norm(e) == "self._spectral_density(w)":
+                return "J"
+        raise Untranslatable("thermal integrand: " + _gl_norm(e)[:120])
+
+
+def _gl_thermal(src, out):
+    """the finite-temperature integrands of CustomSD.eta_function / correlation: the full
+    formula, the large-frequency fall-back and the quantity the guard tests"""
+    rel = "oqupy/bath_correlations.py"
+    sig = "{F : Type} [Field F] (E : F → F) (iUnit J w tau T : F)"
+    for qual, pre, ret in (("CustomSD.eta_function", "eta", "return -integral"),
+                           ("CustomSD.correlation", "corr", "return integral")):
+        fn = src.function(rel, qual)
+        body = _gl_body(fn)
+        st = [_gl_norm(s) for s in body]
+        if len(body) != 6 or st[0] != "if matsubara: tau = -1j * tau" \
+                or not isinstance(body[1], ast.If) or _gl_norm(body[1].test) != "self.temperature == 0.0" \
+                or st[2] != "integral = _complex_integral(integrand, a=0.0, b=self.cutoff, " \
+                            "epsrel=epsrel, limit=subdiv_limit)" \
+                or st[3] != "if self.cutoff_type != 'hard': integral += _complex_integral(integrand, " \
+                            "a=self.cutoff, b=np.inf, epsrel=epsrel, limit=subdiv_limit)" \
+                or st[4] != "if matsubara: integral = integral.real" or st[5] != ret:
+            raise Untranslatable("%s: unexpected shape" % qual)
+        els = body[1].orelse
+        if len(els) != 1 or not isinstance(els[0], ast.FunctionDef) or els[0].name != "integrand" \
+                or [a.arg for a in els[0].args.args] != ["w"]:
+            raise Untranslatable("%s: finite-temperature integrand" % qual)
+        ib = [s for s in els[0].body if not (isinstance(s, ast.Expr) and isinstance(s.value, ast.Constant))]
+        if len(ib) != 2 or not isinstance(ib[0], ast.If) or _gl_norm(ib[1]) != "return inte":
+            raise Untranslatable("%s: integrand(w) is not `if guard: inte = .. else: inte = ..; return inte`" % qual)
+        guard = ib[0].test
+        if not (isinstance(guard, ast.Compare) and len(guard.ops) == 1 and isinstance(guard.ops[0], ast.Gt)
+                and _gl_norm(guard.comparators[0]) == "np.finfo(float).eps"):
+            raise Untranslatable("%s: guard %s" % (qual, _gl_norm(guard)))
+        branches = []
+        sc = _GLScalar()
+        clamped = False
+        for blk in (ib[0].body, ib[0].orelse):
+            blk = list(blk)
+            if blk is not ib[0].body and len(blk) == 3:
+                # else:  expo = <e>; if expo.real < 0.0: expo = 1j * expo.imag; inte = .. np.exp(-expo) ..
+                # (the middle statement only acts for imaginary times beyond 1/T, where the real part
+                #  of the exponent is negative; the generated term is the one for Re(expo) >= 0)
+                if not (isinstance(blk[0], ast.Assign) and _gl_norm(blk[0].targets[0]) == "expo"
+                        and _gl_norm(blk[1]) == "if expo.real < 0.0: expo = 1j * expo.imag"):
+                    raise Untranslatable("%s: fall-back branch %r" % (qual, [_gl_norm(x) for x in blk]))
+                sc.expo = sc.tr(blk[0].value)
+                clamped = True
+                blk = blk[2:]
+            if len(blk) != 1 or not isinstance(blk[0], ast.Assign) or _gl_norm(blk[0].targets[0]) != "inte":
+                raise Untranslatable("%s: branch of the integrand" % qual)
+            branches.append(blk[0])
+        out.append("/-- %s:%d  %s, T > 0: the branch `%s` is taken while this exceeds machine epsilon -/\n"
+                   "def %s_guard %s : F :=\n  let _unused := (iUnit, J, tau)\n  %s\n"
+                   % (rel, ib[0].lineno, qual, _gl_norm(guard), pre, sig, sc.tr(guard.left)))
+        out.append("/-- %s:%d  %s   (tau is `-1j * tau` for matsubara=True) -/\n"
+                   "def %s_integrand_full %s : F :=\n  %s\n"
+                   % (rel, branches[0].lineno, _gl_norm(branches[0]), pre, sig, sc.tr(branches[0].value)))
+        fb = sc.tr(branches[1].value)
+        sc.expo = None
+        out.append("/-- %s:%d  else:  %s%s -/\ndef %s_integrand_fallback %s : F :=\n"
+                   "  let _unused := (T)\n  %s\n"
+                   % (rel, branches[1].lineno,
+                      ("expo = %s ; (for Re(expo) < 0, i.e. imaginary times beyond 1/T, expo is replaced "
+                       "by 1j*Im(expo) -- not part of this term) ; " % _gl_norm(ib[0].orelse[0].value))
+                      if clamped else "", _gl_norm(branches[1]), pre, sig, fb))
+        out.append("/-- the fall-back clamps the exponent for imaginary times beyond 1/T -/\n"
+                   "def %s_fallback_clamped : Bool := %s\n" % (pre, _gl_bool(clamped)))
+    out.append("/-- eta_function returns `-integral`, correlation `integral`; with matsubara=True the time "
+               "argument is replaced by `-1j * tau` first and the real part is returned -/\n"
+               "def eta_sign : Int := -1\n")
+
+
 @fragment("GibbsLoop")
 def frag_gibbsloop(src):
     out = []
@@ -6809,6 +6940,7 @@ def frag_gibbsloop(src):
     _gl_prepare(src, out)
     _gl_backend(src, out)
     _gl_compute(src, out)
+    _gl_thermal(src, out)
     return "\n".join(out)
 # end of GibbsLoop
 
@@ -7276,10 +7408,12 @@ def _tl_backend(src, out):
         if not (isinstance(ce, ast.Call) and not ce.args and not ce.keywords and attr_chain(ce.func)
                 and _tl_norm(w.items[0].optional_vars) == "executor"):
             raise Untranslatable("apply_nn_gate_layer: executor of %r" % key)
-        path = ".".join(attr_chain(ce.func))
+        path = attr_chain(ce.func)
+        if len(path) < 2:
+            raise Untranslatable("apply_nn_gate_layer: executor %s is not module.Class" % ".".join(path))
         if [_tl_norm(s) for s in w.body] != ["output_datas = executor.map(apply_nn_gate, input_datas)"]:
             raise Untranslatable("apply_nn_gate_layer: body of the with block of %r" % key)
-        rows.append((key, path))
+        rows.append((key, ".".join(path[:-1]), path[-1]))
         if len(node.orelse) == 1 and isinstance(node.orelse[0], ast.If):
             node = node.orelse[0]
             continue
@@ -7293,10 +7427,11 @@ def _tl_backend(src, out):
                "_apply_nn_gate_get_data first (input order), then `with <executor class>() as executor: "
                "output_datas = executor.map(apply_nn_gate, input_datas)`, then every result is written "
                "back in the order `output_datas` yields them; any other value raises "
-               "NotImplementedError.  Entries: (key, dotted name of the executor class, kind) -/\n"
-               "def exec_table : List (String × String × ExecKind) :=\n  [%s]\n"
+               "NotImplementedError.  Entries: (key, module the executor class is looked up in as an "
+               "attribute chain, class name, kind) -/\n"
+               "def exec_table : List (String × String × String × ExecKind) :=\n  [%s]\n"
                % (rel, par[2].lineno,
-                  ", ".join('("%s", "%s", .readAllMapWriteAll)' % r for r in rows)))
+                  ", ".join('("%s", "%s", "%s", .readAllMapWriteAll)' % r for r in rows)))
     # import statements of the module
     tree = src.tree(rel)
     plain, aliased, froms = [], [], []
@@ -7312,9 +7447,20 @@ def _tl_backend(src, out):
         if isinstance(n, (ast.Import, ast.ImportFrom)) and n not in tree.body:
             raise Untranslatable("pt_tebd_backend.py: import statement below module level")
     lst = lambda xs: "[" + ", ".join('"%s"' % x for x in xs) + "]"
+    loaded = []
+    for imp in plain:
+        parts = imp.split(".")
+        for k in range(len(parts)):
+            m = ".".join(parts[:k + 1])
+            if m not in loaded:
+                loaded.append(m)
     out.append("/-- %s  module-level `import a.b.c` statements without `as` (each binds the name `a` "
                "and loads the modules a, a.b, a.b.c) -/\n"
                "def plain_imports : List String := %s\n" % (rel, lst(plain)))
+    out.append("/-- the modules loaded by `plain_imports` (all dotted prefixes): an attribute chain "
+               "`a.b.C` in this file resolves, independently of what other modules happen to have "
+               "imported, iff `a.b` is listed here -/\n"
+               "def loaded_modules : List String := %s\n" % lst(loaded))
     out.append("/-- %s  module-level `import x as y` and `from m import n` (as \"m:n\") statements -/\n"
                "def aliased_imports : List String := %s\n"
                "def from_imports : List String := %s\n" % (rel, lst(aliased), lst(froms)))
@@ -7328,6 +7474,1117 @@ def frag_tebdlayers(src):
     _tl_backend(src, out)
     return "\n".join(out)
 # end of TebdLayers
+
+
+
+# ---------------------------------------------------------------------------
+# BathShapes  (C12):  oqupy/bath_correlations.py
+#   * CustomSD.correlation_2d_integral : the difference formulas of the three shapes in
+#     terms of eta_function (and, if present, of an integral of correlation()), the
+#     `.real` post-processing for Matsubara
+#   * CustomCorrelations.correlation_2d_integral : the integration region handed to dblquad
+#   * CustomSD.correlation / CustomSD.eta_function : the integrands (zero temperature,
+#     thermal, overflow guard), the tau rotation for Matsubara, integration ranges, sign
+#   * the cutoff functions, the composition of the spectral density, PowerLawSD's j-function
+#     and what PowerLawSD hands to CustomSD.__init__
+# Grammar of the value expressions (sort K):  names, int/float/1j constants, + - * / unary -,
+# `**`, np.exp, np.expm1, np.heaviside(x, 0), self._spectral_density(w) -> `J`,
+# self.<attr> -> parameter.
+# ---------------------------------------------------------------------------
+
+BS_REL = "oqupy/bath_correlations.py"
+EXTRA_IMPORTS["BathShapes"] = "import OQuPyVerif.Model.BathCorr\n"
+
+
+def _bs_norm(n):
+    return " ".join(ast.unparse(n).split())
+
+
+def _bs_body(fn):
+    body = list(fn.body)
+    if body and isinstance(body[0], ast.Expr) and isinstance(body[0].value, ast.Constant) \
+            and isinstance(body[0].value.value, str):
+        body = body[1:]
+    return body
+
+
+class _BSVal:
+    """value expressions (sort K) over `ExpFns K` + core arithmetic classes"""
+
+    def __init__(self, names, attrs, sd_name="J"):
+        self.names = dict(names)      # python local name -> lean term
+        self.attrs = dict(attrs)      # self.<attr> -> lean parameter name
+        self.sd_name = sd_name
+        self.used = []
+
+    def use(self, v):
+        if v not in self.used:
+            self.used.append(v)
+        return v
+
+    def lit(self, v, where):
+        if isinstance(v, bool):
+            raise Untranslatable("%s: boolean constant" % where)
+        if isinstance(v, complex):
+            if v == 1j:
+                return "F.I"
+            raise Untranslatable("%s: complex constant %r" % (where, v))
+        if isinstance(v, int) or (isinstance(v, float) and v == int(v) and abs(v) < 2 ** 31):
+            return "((%d : Int) : K)" % int(v)
+        raise Untranslatable("%s: constant %r is not an integer-valued literal" % (where, v))
+
+    def tr(self, e):
+        where = _bs_norm(e)[:80]
+        if isinstance(e, ast.Constant):
+            return self.lit(e.value, where)
+        if isinstance(e, ast.Name):
+            if e.id in self.names:
+                return self.use(self.names[e.id])
+            raise Untranslatable("integrand: unknown name %s" % e.id)
+        if isinstance(e, ast.Attribute):
+            ch = attr_chain(e)
+            if ch and len(ch) == 2 and ch[0] == "self" and ch[1] in self.attrs:
+                return self.use(self.attrs[ch[1]])
+            raise Untranslatable("integrand: attribute " + where)
+        if isinstance(e, ast.UnaryOp) and isinstance(e.op, ast.USub):
+            return "(-%s)" % self.tr(e.operand)
+        if isinstance(e, ast.BinOp):
+            if isinstance(e.op, ast.Pow):
+                r = e.right
+                if isinstance(r, ast.Constant) and isinstance(r.value, int) \
+                        and not isinstance(r.value, bool) and r.value >= 0:
+                    return "(F.npow %s %d)" % (self.tr(e.left), r.value)
+                return "(F.pow %s %s)" % (self.tr(e.left), self.tr(e.right))
+            sym = {ast.Add: "+", ast.Sub: "-", ast.Mult: "*", ast.Div: "/"}.get(type(e.op))
+            if sym is None:
+                raise Untranslatable("integrand: operator in " + where)
+            return "(%s %s %s)" % (self.tr(e.left), sym, self.tr(e.right))
+        if isinstance(e, ast.Call):
+            ch = attr_chain(e.func)
+            if e.keywords:
+                raise Untranslatable("integrand: keyword call " + where)
+            if ch == ["np", "exp"] and len(e.args) == 1:
+                return "(F.exp %s)" % self.tr(e.args[0])
+            if ch == ["np", "expm1"] and len(e.args) == 1:
+                return "(F.expm1 %s)" % self.tr(e.args[0])
+            if ch == ["np", "heaviside"] and len(e.args) == 2:
+                return "(F.heaviside %s %s)" % (self.tr(e.args[0]), self.tr(e.args[1]))
+            if ch == ["self", "_spectral_density"] and len(e.args) == 1 \
+                    and isinstance(e.args[0], ast.Name) and e.args[0].id == "w":
+                return self.use(self.sd_name)
+        raise Untranslatable("integrand: cannot translate " + where)
+
+
+BS_KSIG = "{K : Type} [Add K] [Sub K] [Mul K] [Div K] [Neg K] [IntCast K] (F : ExpFns K)"
+
+
+def _bs_kdef(name, params, term, doc):
+    sig = " ".join("(%s : K)" % p for p in params)
+    return "/-- %s -/\ndef %s %s %s : K :=\n  %s\n" % (doc.replace("-/", "- /"), name, BS_KSIG, sig, term)
+
+
+def _bs_integrands(src, out, qual, pre):
+    """CustomSD.correlation / CustomSD.eta_function"""
+    fn = src.function(BS_REL, qual)
+    body = _bs_body(fn)
+    args = [a.arg for a in fn.args.args]
+    if args != ["self", "tau", "epsrel", "subdiv_limit", "matsubara"]:
+        raise Untranslatable("%s: parameters %r" % (qual, args))
+    if len(body) != 6:
+        raise Untranslatable("%s: expected 6 top-level statements, found %d" % (qual, len(body)))
+    rot, disp, first, second, post, ret = body
+    # 1. if matsubara: tau = -1j * tau
+    if not (isinstance(rot, ast.If) and _bs_norm(rot.test) == "matsubara" and not rot.orelse
+            and len(rot.body) == 1 and isinstance(rot.body[0], ast.Assign)
+            and _bs_norm(rot.body[0].targets[0]) == "tau"):
+        raise Untranslatable("%s: Matsubara rotation of tau" % qual)
+    v = _BSVal({"tau": "tau"}, {})
+    out.append("/-- %s:%d  %s:  `if matsubara: tau = %s` -/\n"
+               "def %s_tau %s (matsubara : Bool) (tau : K) : K :=\n  if matsubara then %s else tau\n"
+               % (BS_REL, rot.lineno, qual, _bs_norm(rot.body[0].value), pre, BS_KSIG,
+                  v.tr(rot.body[0].value)))
+    # 2. temperature dispatch
+    if not (isinstance(disp, ast.If) and _bs_norm(disp.test) == "self.temperature == 0.0"):
+        raise Untranslatable("%s: temperature dispatch is %s" % (qual, _bs_norm(disp)[:60]))
+    zb = list(disp.body)
+    if len(zb) != 2 or not (isinstance(zb[0], ast.Expr) and isinstance(zb[0].value, ast.Call)
+                            and _bs_norm(zb[0].value.func) == "check_true"
+                            and _bs_norm(zb[0].value.args[0]) == "matsubara is False"):
+        raise Untranslatable("%s: zero-temperature branch does not start with "
+                             "check_true(matsubara is False, ..)" % qual)
+
+    def integrand_def(node):
+        if not (isinstance(node, ast.FunctionDef) and node.name == "integrand"
+                and [a.arg for a in node.args.args] == ["w"]):
+            raise Untranslatable("%s: expected `def integrand(w)`" % qual)
+        return [s for s in node.body
+                if not (isinstance(s, ast.Expr) and isinstance(s.value, ast.Constant))]
+
+    names = {"w": "w", "tau": "tau"}
+    attrs = {"temperature": "T"}
+    params = ["J", "w", "tau", "T"]
+    zi = integrand_def(zb[1])
+    if len(zi) != 1 or not isinstance(zi[0], ast.Return):
+        raise Untranslatable("%s: zero-temperature integrand is not a single return" % qual)
+    out.append(_bs_kdef(pre + "_zeroT", params, _BSVal(names, attrs).tr(zi[0].value),
+                        "%s:%d  %s, temperature == 0.0 (J = self._spectral_density(w)):  return %s"
+                        % (BS_REL, zi[0].lineno, qual, _bs_norm(zi[0].value))))
+    if len(disp.orelse) != 1:
+        raise Untranslatable("%s: thermal branch shape" % qual)
+    ti = integrand_def(disp.orelse[0])
+    if len(ti) != 2 or not isinstance(ti[0], ast.If) or _bs_norm(ti[1]) != "return inte":
+        raise Untranslatable("%s: thermal integrand is not `if guard: inte = .. else: inte = ..; "
+                             "return inte`" % qual)
+    g = ti[0]
+    if not (isinstance(g.test, ast.Compare) and len(g.test.ops) == 1
+            and isinstance(g.test.ops[0], ast.Gt)
+            and _bs_norm(g.test.comparators[0]) == "np.finfo(float).eps"):
+        raise Untranslatable("%s: overflow guard is %s" % (qual, _bs_norm(g.test)))
+    out.append(_bs_kdef(pre + "_guardQty", ["w", "T"], _BSVal(names, attrs).tr(g.test.left),
+                        "%s:%d  %s: the thermal expression is used while  %s  (binary64 eps = 2^-52), "
+                        "the guard expression otherwise" % (BS_REL, g.lineno, qual, _bs_norm(g.test))))
+    for blk, tag in ((g.body, "thermal"), (g.orelse, "guard")):
+        if len(blk) != 1 or not isinstance(blk[0], ast.Assign) \
+                or _bs_norm(blk[0].targets[0]) != "inte":
+            raise Untranslatable("%s: %s branch is not a single `inte = ...`" % (qual, tag))
+        out.append(_bs_kdef("%s_%s" % (pre, tag), params, _BSVal(names, attrs).tr(blk[0].value),
+                            "%s:%d  %s, %s branch:  inte = %s"
+                            % (BS_REL, blk[0].lineno, qual, tag, _bs_norm(blk[0].value))))
+    # 3./4. integration ranges
+    want1 = "integral = _complex_integral(integrand, a=0.0, b=self.cutoff, epsrel=epsrel, limit=subdiv_limit)"
+    want2 = ("if self.cutoff_type != 'hard': integral += _complex_integral(integrand, a=self.cutoff, "
+             "b=np.inf, epsrel=epsrel, limit=subdiv_limit)")
+    if _bs_norm(first) != want1 or _bs_norm(second) != want2:
+        raise Untranslatable("%s: integration ranges: %s ; %s" % (qual, _bs_norm(first), _bs_norm(second)))
+    if _bs_norm(post) != "if matsubara: integral = integral.real":
+        raise Untranslatable("%s: Matsubara post-processing is %s" % (qual, _bs_norm(post)))
+    r = _bs_norm(ret)
+    if r == "return integral":
+        sign = 1
+    elif r == "return -integral":
+        sign = -1
+    else:
+        raise Untranslatable("%s: return statement %s" % (qual, r))
+    out.append("/-- %s:%d  %s: the integrand is integrated over (0, cutoff) and, unless the cutoff type "
+               "is 'hard', also over (cutoff, inf); with `matsubara` the real part is taken; "
+               "the result is returned with this sign -/\n"
+               "def %s_sign : Int := %d\n"
+               "def %s_tailUnlessHard : Bool := true\n"
+               "def %s_realIfMatsubara : Bool := true\n"
+               % (BS_REL, ret.lineno, qual, pre, sign, pre, pre))
+
+
+def _bs_complex_integral(src, out):
+    fn = src.function(BS_REL, "_complex_integral")
+    body = _bs_body(fn)
+    want = ["re_int = integrate.quad(lambda x: np.real(integrand(x)), a=a, b=b, epsrel=epsrel, limit=limit)[0]",
+            "im_int = integrate.quad(lambda x: np.imag(integrand(x)), a=a, b=b, epsrel=epsrel, limit=limit)[0]",
+            "return re_int + 1j * im_int"]
+    if [_bs_norm(s) for s in body] != want:
+        raise Untranslatable("_complex_integral: unexpected shape %r" % [_bs_norm(s) for s in body])
+    out.append("/-- %s:%d  _complex_integral(f, a, b) = Q(re ∘ f) + 1j * Q(im ∘ f) with one real "
+               "quadrature functional Q = integrate.quad(·, a, b, epsrel, limit)[0] -/\n"
+               "def complexIntegral_splits_re_im : Bool := true\n" % (BS_REL, fn.lineno))
+
+
+def _bs_cutoffs(src, out):
+    table = {}
+    for fname in ("_hard_cutoff", "_exponential_cutoff", "_gaussian_cutoff"):
+        fn = src.function(BS_REL, fname)
+        if [a.arg for a in fn.args.args] != ["omega", "omega_c"]:
+            raise Untranslatable("%s: parameters" % fname)
+        body = _bs_body(fn)
+        if len(body) != 1 or not isinstance(body[0], ast.Return):
+            raise Untranslatable("%s: not a single return" % fname)
+        v = _BSVal({"omega": "omega", "omega_c": "omega_c"}, {})
+        lname = "cutoff" + fname[1:].split("_")[0].capitalize()
+        out.append(_bs_kdef(lname, ["omega", "omega_c"], v.tr(body[0].value),
+                            "%s:%d  %s:  return %s" % (BS_REL, fn.lineno, fname, _bs_norm(body[0].value))))
+        table[fname] = lname
+    # CUTOFF_DICT
+    tree = src.tree(BS_REL)
+    hits = [n for n in tree.body if isinstance(n, ast.Assign) and _bs_norm(n.targets[0]) == "CUTOFF_DICT"]
+    if len(hits) != 1 or not isinstance(hits[0].value, ast.Dict):
+        raise Untranslatable("CUTOFF_DICT: not a single dict literal")
+    pairs = []
+    for k, val in zip(hits[0].value.keys, hits[0].value.values):
+        if not (isinstance(k, ast.Constant) and isinstance(k.value, str) and isinstance(val, ast.Name)
+                and val.id in table):
+            raise Untranslatable("CUTOFF_DICT entry " + _bs_norm(k))
+        pairs.append((k.value, table[val.id]))
+    if sorted(p[0] for p in pairs) != ["exponential", "gaussian", "hard"]:
+        raise Untranslatable("CUTOFF_DICT keys %r" % [p[0] for p in pairs])
+    arms = "\n".join('  | "%s" => some (%s F omega omega_c)' % p for p in pairs)
+    out.append("/-- %s:%d  CUTOFF_DICT[cutoff_type](omega, omega_c); `none` = the type is rejected "
+               "by CustomSD.__init__ -/\n"
+               "def cutoffOf %s (cutoff_type : String) (omega omega_c : K) : Option K :=\n"
+               "  match cutoff_type with\n%s\n  | _ => none\n" % (BS_REL, hits[0].lineno, BS_KSIG, arms))
+    out.append("def cutoffTypes : List String := [%s]\n" % ", ".join('"%s"' % p[0] for p in pairs))
+
+
+def _bs_method_or_none(src, qual):
+    try:
+        return src.function(BS_REL, qual)
+    except Untranslatable:
+        return None
+
+
+def _bs_spectral_density(src, out):
+    """two accepted source forms: the functions are stored by CustomSD.__init__ as lambdas, or
+    they are methods of CustomSD; the bodies must be the same expressions"""
+    fn = src.function(BS_REL, "CustomSD.__init__")
+    got = {}
+    for s in ast.walk(fn):
+        if isinstance(s, ast.Assign) and len(s.targets) == 1:
+            t = _bs_norm(s.targets[0])
+            if t in ("self._cutoff_function", "self._spectral_density"):
+                got[t] = _bs_norm(s.value)
+    where = fn
+    for name in ("_cutoff_function", "_spectral_density"):
+        m = _bs_method_or_none(src, "CustomSD." + name)
+        if m is not None:
+            if "self." + name in got:
+                raise Untranslatable("CustomSD.%s is both a method and assigned in __init__" % name)
+            body = _bs_body(m)
+            if [a.arg for a in m.args.args] != ["self", "omega"] or len(body) != 1 \
+                    or not isinstance(body[0], ast.Return):
+                raise Untranslatable("CustomSD.%s: not `def %s(self, omega): return ...`" % (name, name))
+            got["self." + name] = "lambda omega: " + _bs_norm(body[0].value)
+            where = m
+    want = {"self._cutoff_function": "lambda omega: CUTOFF_DICT[self.cutoff_type](omega, self.cutoff)",
+            "self._spectral_density": "lambda omega: self.j_function(omega) * self._cutoff_function(omega)"}
+    if got != want:
+        raise Untranslatable("CustomSD: spectral density composition %r" % got)
+    out.append("/-- %s:%d  CustomSD:  _spectral_density(omega) = j_function(omega) * "
+               "CUTOFF_DICT[cutoff_type](omega, cutoff) -/\n"
+               "def spectralDensity %s (j : K → K) (cutoff_type : String) (cutoff : K) (omega : K) : Option K :=\n"
+               "  (cutoffOf F cutoff_type omega cutoff).map (fun x => j omega * x)\n"
+               % (BS_REL, where.lineno, BS_KSIG))
+    fn2 = src.function(BS_REL, "CustomSD.spectral_density")
+    if [_bs_norm(s) for s in _bs_body(fn2)] != ["return self._spectral_density(omega)"]:
+        raise Untranslatable("CustomSD.spectral_density: unexpected body")
+
+
+def _bs_powerlaw(src, out):
+    """two accepted source forms: `j_function = lambda w: ...` handed to super().__init__, or a
+    method `j_function(self, omega)` handed over as `self.j_function`"""
+    fn = src.function(BS_REL, "PowerLawSD.__init__")
+    stored = {}
+    for s in ast.walk(fn):
+        if isinstance(s, ast.Assign) and len(s.targets) == 1 and isinstance(s.targets[0], ast.Attribute):
+            t = _bs_norm(s.targets[0])
+            if t in ("self.alpha", "self.zeta", "self.cutoff"):
+                stored[t] = _bs_norm(s.value)
+    if stored != {"self.alpha": "tmp_alpha", "self.zeta": "tmp_zeta", "self.cutoff": "tmp_cutoff"}:
+        raise Untranslatable("PowerLawSD.__init__: stored parameters %r" % stored)
+    lam = [s for s in fn.body if isinstance(s, ast.Assign) and _bs_norm(s.targets[0]) == "j_function"]
+    meth = _bs_method_or_none(src, "PowerLawSD.j_function")
+    if len(lam) == 1 and meth is None:
+        if not isinstance(lam[0].value, ast.Lambda) or [a.arg for a in lam[0].value.args.args] != ["w"]:
+            raise Untranslatable("PowerLawSD.__init__: j_function is not `lambda w: ...`")
+        var, body, line, first = "w", lam[0].value.body, lam[0].lineno, "j_function"
+        text = _bs_norm(lam[0].value)
+    elif not lam and meth is not None:
+        mb = _bs_body(meth)
+        if [a.arg for a in meth.args.args] != ["self", "omega"] or len(mb) != 1 \
+                or not isinstance(mb[0], ast.Return):
+            raise Untranslatable("PowerLawSD.j_function: not `def j_function(self, omega): return ...`")
+        var, body, line, first = "omega", mb[0].value, meth.lineno, "self.j_function"
+        text = "lambda omega: " + _bs_norm(mb[0].value)
+    else:
+        raise Untranslatable("PowerLawSD: j_function is neither a single lambda nor a method")
+    # the closure may name the constructor argument or the stored float of a parameter -- both
+    # denote the same number
+    v = _BSVal({var: "w", "alpha": "alpha", "zeta": "zeta", "cutoff": "cutoff"},
+               {"alpha": "alpha", "zeta": "zeta", "cutoff": "cutoff"})
+    out.append(_bs_kdef("powerLawJ", ["alpha", "zeta", "cutoff", "w"], v.tr(body),
+                        "%s:%d  PowerLawSD:  j_function = %s   (constructor argument and "
+                        "stored float of the same parameter are identified)" % (BS_REL, line, text)))
+    calls = [n for n in ast.walk(fn) if isinstance(n, ast.Call)
+             and _bs_norm(n.func) == "super().__init__"]
+    if len(calls) != 1:
+        raise Untranslatable("PowerLawSD.__init__: super().__init__ call")
+    c = calls[0]
+    pos = [_bs_norm(a) for a in c.args]
+    kw = {k.arg: _bs_norm(k.value) for k in c.keywords}
+    if pos != [first] or kw != {"cutoff": "cutoff", "cutoff_type": "cutoff_type",
+                                "temperature": "temperature", "name": "name",
+                                "description": "description"}:
+        raise Untranslatable("PowerLawSD.__init__: arguments of super().__init__: %r %r" % (pos, kw))
+    cls = src.function(BS_REL, "PowerLawSD")
+    if [_bs_norm(b) for b in cls.bases] != ["CustomSD"]:
+        raise Untranslatable("PowerLawSD: base classes")
+    over = sorted(n.name for n in cls.body if isinstance(n, ast.FunctionDef))
+    bad = [m for m in over if m in ("correlation", "eta_function", "correlation_2d_integral",
+                                    "spectral_density", "_spectral_density", "_cutoff_function")]
+    if bad:
+        raise Untranslatable("PowerLawSD overrides %r" % bad)
+    out.append("/-- %s:%d  PowerLawSD(CustomSD) defines only %s; it calls\n"
+               "    super().__init__(%s, cutoff=cutoff, cutoff_type=cutoff_type, "
+               "temperature=temperature, ..): all of correlation / eta_function / "
+               "correlation_2d_integral / spectral_density are CustomSD's, with these arguments -/\n"
+               "def powerLawSD %s (alpha zeta cutoff : K) (cutoff_type : String) (omega : K) : Option K :=\n"
+               "  spectralDensity F (powerLawJ F alpha zeta cutoff) cutoff_type cutoff omega\n"
+               % (BS_REL, cls.lineno, ", ".join(over), first, BS_KSIG))
+
+
+# --- the shapes ------------------------------------------------------------
+
+BS_TSIG = ("{T K : Type} [Add T] [Sub T] [Zero T] [DecidableEq T] "
+           "[Add K] [Sub K] [Mul K] [Neg K] [NatCast K]")
+BS_SHAPE_PARAMS = ("(eta : T → K) (corrInt : T → T → K) (ι : T → K) (matsubara : Bool) "
+                   "(delta time_1 time_2 : T)")
+
+
+class _BSShape:
+    """symbolic execution of one branch of CustomSD.correlation_2d_integral.
+    sorts: 'T' times (delta, time_1, time_2, literal 0.0, + -), 'K' values."""
+
+    def __init__(self):
+        self.env = {}          # K-valued locals
+
+    def time(self, e):
+        if isinstance(e, ast.Name) and e.id in ("delta", "time_1", "time_2"):
+            return e.id
+        if isinstance(e, ast.Constant) and isinstance(e.value, float) and e.value == 0.0:
+            return "(0 : T)"
+        if isinstance(e, ast.BinOp) and isinstance(e.op, (ast.Add, ast.Sub)):
+            return "(%s %s %s)" % (self.time(e.left), "+" if isinstance(e.op, ast.Add) else "-",
+                                   self.time(e.right))
+        raise Untranslatable("shape formula: time expression " + _bs_norm(e))
+
+    def is_time(self, e):
+        try:
+            self.time(e)
+            return not (isinstance(e, ast.Constant))
+        except Untranslatable:
+            return False
+
+    def val(self, e):
+        where = _bs_norm(e)[:90]
+        if isinstance(e, ast.Name):
+            if e.id in self.env:
+                return self.env[e.id]
+            if e.id in ("delta", "time_1", "time_2"):
+                return "(ι %s)" % e.id
+            raise Untranslatable("shape formula: name %s used before assignment" % e.id)
+        if isinstance(e, ast.Constant):
+            v = e.value
+            if isinstance(v, (int, float)) and not isinstance(v, bool) and v == int(v) and 0 <= v < 2 ** 31:
+                return "((%d : Nat) : K)" % int(v)
+            raise Untranslatable("shape formula: constant %r" % (v,))
+        if isinstance(e, ast.UnaryOp) and isinstance(e.op, ast.USub):
+            return "(-%s)" % self.val(e.operand)
+        if isinstance(e, ast.BinOp) and isinstance(e.op, (ast.Add, ast.Sub, ast.Mult)):
+            sym = {ast.Add: "+", ast.Sub: "-", ast.Mult: "*"}[type(e.op)]
+            return "(%s %s %s)" % (self.val(e.left), sym, self.val(e.right))
+        if isinstance(e, ast.Call):
+            f = _bs_norm(e.func)
+            if f == "self.eta_function":
+                if len(e.args) != 1 or len(e.keywords) != 1 or e.keywords[0].arg is not None \
+                        or _bs_norm(e.keywords[0].value) != "kwargs":
+                    raise Untranslatable("shape formula: eta_function call " + where)
+                return "(eta %s)" % self.time(e.args[0])
+            if f == "_complex_integral":
+                kw = {k.arg: k.value for k in e.keywords}
+                if len(e.args) != 1 or sorted(kw) != ["a", "b", "epsrel", "limit"] \
+                        or _bs_norm(e.args[0]) != "lambda tau: self.correlation(tau, **kwargs)" \
+                        or _bs_norm(kw["epsrel"]) != "epsrel" or _bs_norm(kw["limit"]) != "subdiv_limit":
+                    raise Untranslatable("shape formula: _complex_integral call " + where)
+                return "(corrInt %s %s)" % (self.time(kw["a"]), self.time(kw["b"]))
+        raise Untranslatable("shape formula: cannot translate " + where)
+
+    def cond(self, e):
+        t = _bs_norm(e)
+        if t == "matsubara":
+            return "matsubara"
+        if isinstance(e, ast.Compare) and len(e.ops) == 1 and isinstance(e.ops[0], (ast.NotEq, ast.Eq)):
+            a, b = self.time(e.left), self.time(e.comparators[0])
+            return "(decide (%s %s %s))" % (a, "≠" if isinstance(e.ops[0], ast.NotEq) else "=", b)
+        raise Untranslatable("shape formula: condition " + t)
+
+    def run(self, stmts):
+        for s in stmts:
+            if isinstance(s, ast.Assign) and len(s.targets) == 1 and isinstance(s.targets[0], ast.Name):
+                self.env[s.targets[0].id] = self.val(s.value)
+            elif isinstance(s, ast.If) and not s.orelse:
+                c = self.cond(s.test)
+                inner = _BSShape()
+                inner.env = dict(self.env)
+                inner.run(s.body)
+                for k, v in inner.env.items():
+                    if k not in self.env:
+                        # a local of the branch only; keep it visible for later statements of the
+                        # same branch (not after the `if`)
+                        continue
+                    if v != self.env[k]:
+                        self.env[k] = "(if %s then %s else %s)" % (c, v, self.env[k])
+            else:
+                raise Untranslatable("shape formula: statement " + _bs_norm(s)[:90])
+
+
+def _bs_shapes(src, out):
+    qual = "CustomSD.correlation_2d_integral"
+    fn = src.function(BS_REL, qual)
+    args = [a.arg for a in fn.args.args]
+    if args != ["self", "delta", "time_1", "time_2", "shape", "epsrel", "subdiv_limit", "matsubara"]:
+        raise Untranslatable("%s: parameters %r" % (qual, args))
+    body = _bs_body(fn)
+    if len(body) != 4:
+        raise Untranslatable("%s: expected 4 top-level statements, found %d" % (qual, len(body)))
+    kw, disp, post, ret = body
+    if _bs_norm(kw) != "kwargs = {'epsrel': epsrel, 'subdiv_limit': subdiv_limit, 'matsubara': matsubara}":
+        raise Untranslatable("%s: kwargs = %s" % (qual, _bs_norm(kw)))
+    names, node = [], disp
+    lean_names = {"upper-triangle": "shapeTri", "square": "shapeSq", "rectangle": "shapeRect"}
+    while True:
+        if not (isinstance(node, ast.If) and isinstance(node.test, ast.Compare)
+                and _bs_norm(node.test.left) == "shape" and len(node.test.ops) == 1
+                and isinstance(node.test.ops[0], ast.Eq)
+                and isinstance(node.test.comparators[0], ast.Constant)):
+            raise Untranslatable("%s: shape dispatch is not an if/elif chain on `shape ==`" % qual)
+        nm = node.test.comparators[0].value
+        if nm not in lean_names or nm in names:
+            raise Untranslatable("%s: unknown shape %r" % (qual, nm))
+        names.append(nm)
+        sh = _BSShape()
+        sh.run(node.body)
+        if "integral" not in sh.env:
+            raise Untranslatable("%s[%s]: `integral` is not assigned" % (qual, nm))
+        src_text = " ; ".join(_bs_norm(s) for s in node.body)
+        out.append("/-- %s:%d  %s, shape == '%s':  %s\n"
+                   "    (`eta t` = self.eta_function(t, **kwargs); `corrInt a b` = _complex_integral(lambda tau: "
+                   "self.correlation(tau, **kwargs), a, b, ..); `ι` embeds a time into the values) -/\n"
+                   "def %s %s %s : K :=\n  %s\n"
+                   % (BS_REL, node.lineno, qual, nm, src_text.replace("-/", "- /"),
+                      lean_names[nm], BS_TSIG, BS_SHAPE_PARAMS, sh.env["integral"]))
+        if len(node.orelse) == 1 and isinstance(node.orelse[0], ast.If):
+            node = node.orelse[0]
+            continue
+        if len(node.orelse) == 1 and isinstance(node.orelse[0], ast.Raise) \
+                and _bs_norm(node.orelse[0].exc).startswith("NotImplementedError("):
+            break
+        raise Untranslatable("%s: the dispatch does not end in `raise NotImplementedError`" % qual)
+    if sorted(names) != sorted(lean_names):
+        raise Untranslatable("%s: shapes %r" % (qual, names))
+    if _bs_norm(post) != "if matsubara: integral = integral.real" or _bs_norm(ret) != "return integral":
+        raise Untranslatable("%s: post-processing %s ; %s" % (qual, _bs_norm(post), _bs_norm(ret)))
+    out.append("/-- %s:%d  `if matsubara: integral = integral.real` then `return integral` -/\n"
+               "def shapePost {K : Type} (re : K → K) (matsubara : Bool) (integral : K) : K :=\n"
+               "  if matsubara then re integral else integral\n" % (BS_REL, post.lineno))
+    out.append("/-- order of the `shape ==` tests; any other string raises NotImplementedError -/\n"
+               "def shapeNames : List String := [%s]\n" % ", ".join('"%s"' % n for n in names))
+
+
+def _bs_custom_region(src, out):
+    """CustomCorrelations.correlation_2d_integral: what is handed to dblquad"""
+    qual = "CustomCorrelations.correlation_2d_integral"
+    fn = src.function(BS_REL, qual)
+    body = _bs_body(fn)
+    texts = [_bs_norm(s) for s in body]
+    if len(body) != 8 \
+            or texts[0] != "c_real = lambda y, x: np.real(self.correlation(x - y))" \
+            or texts[1] != "c_imag = lambda y, x: np.imag(self.correlation(x - y))" \
+            or not texts[2].startswith("if time_2 is None: time_2 = time_1 + delta else: assert shape == 'rectangle'") \
+            or texts[7] != "return int_real + 1j * int_imag":
+        raise Untranslatable("%s: unexpected shape %r" % (qual, [t[:60] for t in texts]))
+    for s, part in ((body[5], "c_real"), (body[6], "c_imag")):
+        want = ("integrate.dblquad(func=%s, a=time_1, b=time_2, gfun=lower_boundary[shape], "
+                "hfun=upper_boundary[shape], epsrel=epsrel)[0]" % part)
+        if _bs_norm(s.value) != want:
+            raise Untranslatable("%s: dblquad call %s" % (qual, _bs_norm(s.value)))
+    tables = {}
+    for s in body[3:5]:
+        nm = _bs_norm(s.targets[0])
+        if nm not in ("lower_boundary", "upper_boundary") or not isinstance(s.value, ast.Dict):
+            raise Untranslatable("%s: boundary tables" % qual)
+        d = {}
+        for k, v in zip(s.value.keys, s.value.values):
+            if not (isinstance(k, ast.Constant) and isinstance(v, ast.Lambda)
+                    and [a.arg for a in v.args.args] == ["x"]):
+                raise Untranslatable("%s: boundary entry %s" % (qual, _bs_norm(k)))
+            d[k.value] = v.body
+        if sorted(d) != ["rectangle", "square", "upper-triangle"]:
+            raise Untranslatable("%s: boundary shapes %r" % (qual, sorted(d)))
+        tables[nm] = d
+
+    def bound(e):
+        if isinstance(e, ast.Constant) and isinstance(e.value, float) and e.value == 0.0:
+            return "(0 : R)"
+        if isinstance(e, ast.Name) and e.id in ("x", "delta", "time_1"):
+            return e.id
+        if isinstance(e, ast.BinOp) and isinstance(e.op, (ast.Add, ast.Sub)):
+            return "(%s %s %s)" % (bound(e.left), "+" if isinstance(e.op, ast.Add) else "-", bound(e.right))
+        raise Untranslatable("%s: boundary expression %s" % (qual, _bs_norm(e)))
+
+    lean_names = {"upper-triangle": "Tri", "square": "Sq", "rectangle": "Rect"}
+    out.append("/-- %s:%d  %s hands  C(x - y)  to dblquad with x from time_1 to time_2 "
+               "(time_2 = time_1 + delta unless given, which is only allowed for 'rectangle') and y "
+               "between these bounds -/\n" % (BS_REL, fn.lineno, qual))
+    for nm, ln in lean_names.items():
+        out.append("def regionLower%s {R : Type} [Add R] [Sub R] [Zero R] (delta time_1 x : R) : R :=\n  %s\n"
+                   "def regionUpper%s {R : Type} [Add R] [Sub R] [Zero R] (delta time_1 x : R) : R :=\n  %s\n"
+                   % (ln, bound(tables["lower_boundary"][nm]), ln, bound(tables["upper_boundary"][nm])))
+    out.append("def regionDefaultTime2 {R : Type} [Add R] (delta time_1 : R) : R :=\n  (time_1 + delta)\n")
+
+
+@fragment("BathShapes")
+def frag_bathshapes(src):
+    out = ["open OQuPyVerif.BathCorr\n"]
+    _bs_shapes(src, out)
+    _bs_custom_region(src, out)
+    _bs_complex_integral(src, out)
+    _bs_integrands(src, out, "CustomSD.correlation", "corr")
+    _bs_integrands(src, out, "CustomSD.eta_function", "eta")
+    _bs_cutoffs(src, out)
+    _bs_spectral_density(src, out)
+    _bs_powerlaw(src, out)
+    return "\n".join(out)
+# end of BathShapes
+
+
+# ---------------------------------------------------------------------------
+# MpoWiring  (C03): which leg of which tensor is joined to which in the contraction of
+# process tensors by compute_dynamics, in get_mpo_tensor and in compute_caps
+# ---------------------------------------------------------------------------
+
+MW_PREAMBLE = '''/-- roles of the four axes of an MPO tensor when it is applied to the propagated node -/
+structure MpoAxes where
+  bondIn : Nat
+  bondOut : Nat
+  sysIn : Nat
+  sysOut : Nat
+  deriving DecidableEq, Repr
+
+/-- the vector that closes a leg in `compute_caps`:  the cap computed before (`lastCap`),
+    `_trace` (identity/sqrt(d), flattened), `_trace_square` (`_trace**2`), `_trace_in`
+    (`_trace @ transform_in`), `_trace_out` (`transform_out @ _trace`), or the elementwise
+    product `_trace_in * _trace_out` -/
+inductive Closer where
+  | lastCap | trace | traceSquare | traceIn | traceOut | traceInTimesOut
+  deriving DecidableEq, Repr
+
+/-- where `compute_caps` takes the tensor of a step from:  the stored tensor (`stored`, rank 3 or 4,
+    process-tensor basis) or `get_mpo_tensor(step)` (`transformed`: rank 4, system basis) -/
+inductive CapTensor where
+  | stored | transformed
+  deriving DecidableEq, Repr
+
+/-- one `compute_caps`:  per rank of the tensor, the (axis, closing vector) pairs in statement order;
+    `rank3 = none`: no separate branch for rank 3 -/
+structure CapWiring where
+  tensor : CapTensor
+  rank3 : Option (List (Nat × Closer))
+  rank4 : List (Nat × Closer)
+  /-- the cap behind the last tensor is `[1.0]` -/
+  lastIsOne : Bool
+  /-- the caps are produced for `step = length-1, ..., 0` in this order, each from the previous one -/
+  backwards : Bool
+  deriving DecidableEq, Repr
+
+/-- one `get_mpo_tensor`:  `create_delta(tensor, deltaScramble)` when the stored tensor has rank
+    `deltaRank`;  `transform_in`:  axis `inAxis` of the tensor is contracted with axis `inMatAxis` of
+    `transform_in` and the new axis is put at `inAxis` again;  `transform_out`: axis `outAxis` of the
+    tensor with axis `outMatAxis` of `transform_out`, new axis last;  in this order;  each only when
+    the transform is not None;  `deltaWhenUntransformed`: the delta is also inserted when the caller
+    passes `transformed=False` -/
+structure GetMpoWiring where
+  deltaRank : Nat
+  deltaScramble : List Nat
+  deltaWhenUntransformed : Bool
+  inAxis : Int
+  inMatAxis : Nat
+  outAxis : Int
+  outMatAxis : Nat
+  inBeforeOut : Bool
+  deriving DecidableEq, Repr
+'''
+
+
+def _mw_norm(s):
+    return " ".join(ast.unparse(s).split())
+
+
+def _mw_body(fn):
+    return _cc_strip(fn.body)
+
+
+def _mw_axis(text, prefix, where):
+    if not (text.startswith(prefix + "[") and text.endswith("]")):
+        raise Untranslatable("%s: expected %s[<axis>], found %s" % (where, prefix, text))
+    try:
+        return int(text[len(prefix) + 1:-1])
+    except ValueError:
+        raise Untranslatable("%s: axis in %s is not an integer constant" % (where, text))
+
+
+def _mw_apply_pt_mpos(src, out):
+    rel = "oqupy/system_dynamics.py"
+    fn = src.function(rel, "_apply_pt_mpos")
+    params = [a.arg for a in fn.args.args]
+    body = _mw_body(fn)
+    texts = [_mw_norm(s) for s in body]
+    if not texts or texts[-1] != "return (current_node, current_edges)":
+        raise Untranslatable("_apply_pt_mpos: does not end in `return current_node, current_edges`")
+    body, texts = body[:-1], texts[:-1]
+    if params == ["current_node", "current_edges", "pt_mpos"]:
+        if len(body) != 1:
+            raise Untranslatable("_apply_pt_mpos: expected a single loop, found %r" % texts)
+        loop = body[0]
+        it = "enumerate(pt_mpos)"
+    elif params == ["current_node", "current_edges", "pt_mpos", "reverse"]:
+        # optional reversed visiting order; the default (what compute_dynamics uses) must be list order
+        d = fn.args.defaults
+        if len(d) != 1 or not isinstance(d[0], ast.Constant) or d[0].value is not False:
+            raise Untranslatable("_apply_pt_mpos: `reverse` must default to False")
+        if texts and texts[-1] == "if reverse: current_node.reorder_edges(current_edges)":
+            body, texts = body[:-1], texts[:-1]
+        if len(body) != 3 or not isinstance(body[0], ast.Assign) or len(body[0].targets) != 1 \
+                or not isinstance(body[0].targets[0], ast.Name) \
+                or _mw_norm(body[0].value) != "list(enumerate(pt_mpos))":
+            raise Untranslatable("_apply_pt_mpos: expected `<v> = list(enumerate(pt_mpos))`")
+        it = body[0].targets[0].id
+        if texts[1] != "if reverse: %s.reverse()" % it:
+            raise Untranslatable("_apply_pt_mpos: expected `if reverse: %s.reverse()`" % it)
+        loop = body[2]
+    else:
+        raise Untranslatable("_apply_pt_mpos: parameters %r" % params)
+    if not (isinstance(loop, ast.For) and _mw_norm(loop.target) == "(i, pt_mpo)"
+            and _mw_norm(loop.iter) == it and not loop.orelse):
+        raise Untranslatable("_apply_pt_mpos: loop header")
+    lb = [_mw_norm(s) for s in _cc_strip(loop.body)]
+    skips_none = bool(lb) and lb[0] == "if pt_mpo is None: continue"
+    if skips_none:
+        lb = lb[1:]
+    if len(lb) != 8 or lb[0] != "pt_mpo_node = tn.Node(pt_mpo)":
+        raise Untranslatable("_apply_pt_mpos: loop body %r" % lb)
+    lb = lb[1:]
+    want = {4: "current_node = current_node @ pt_mpo_node", 5: "current_edges[i] = new_bond_edge",
+            6: "current_edges[-1] = new_sys_edge"}
+    for k, w in want.items():
+        if lb[k] != w:
+            raise Untranslatable("_apply_pt_mpos: statement %r, expected %r" % (lb[k], w))
+    pre = ["new_bond_edge = ", "new_sys_edge = ", "current_edges[i] ^ ", "current_edges[-1] ^ "]
+    ax = []
+    for k in range(4):
+        if not lb[k].startswith(pre[k]):
+            raise Untranslatable("_apply_pt_mpos: statement %r, expected %r..." % (lb[k], pre[k]))
+        ax.append(_mw_axis(lb[k][len(pre[k]):], "pt_mpo_node", "_apply_pt_mpos"))
+    bond_out, sys_out, bond_in, sys_in = ax
+    if sorted(ax) != [0, 1, 2, 3]:
+        raise Untranslatable("_apply_pt_mpos: the four axes are not a permutation of 0..3")
+    out.append("/-- %s:%d  _apply_pt_mpos: for i, pt_mpo in enumerate(pt_mpos): bond edge `i` is joined to\n"
+               "    axis `bondIn`, the system edge to axis `sysIn`; axes `bondOut` / `sysOut` become bond edge\n"
+               "    `i` / the system edge.  The environments are visited in list order. -/\n"
+               "def applyAxes : MpoAxes := { bondIn := %d, bondOut := %d, sysIn := %d, sysOut := %d }\n"
+               % (rel, fn.lineno, bond_in, bond_out, sys_in, sys_out))
+    out.append("/-- an entry `None` of the MPO list (TrivialProcessTensor) is skipped -/\n"
+               "def applySkipsNone : Bool := %s\n" % ("true" if skips_none else "false"))
+
+
+def _mw_apply_caps(src, out):
+    rel = "oqupy/system_dynamics.py"
+    fn = src.function(rel, "_apply_caps")
+    if [a.arg for a in fn.args.args] != ["current_node", "current_edges", "caps"]:
+        raise Untranslatable("_apply_caps: parameters")
+    body = _mw_body(fn)
+    texts = [_mw_norm(s) for s in body]
+    if len(body) != 4 or texts[0] != "(node_dict, edge_dict) = tn.copy([current_node])" \
+            and texts[0] != "node_dict, edge_dict = tn.copy([current_node])":
+        raise Untranslatable("_apply_caps: unexpected shape %r" % texts)
+    loop = body[1]
+    if not (isinstance(loop, ast.For) and _mw_norm(loop.target) == "(current_edge, cap)"
+            and _mw_norm(loop.iter) == "zip(current_edges[:-1], caps)" and not loop.orelse):
+        raise Untranslatable("_apply_caps: loop header")
+    lb = [_mw_norm(s) for s in _cc_strip(loop.body)]
+    if len(lb) != 3 or lb[0] != "cap_node = tn.Node(cap)" \
+            or not lb[1].startswith("edge_dict[current_edge] ^ ") \
+            or lb[2] != "node_dict[current_node] = node_dict[current_node] @ cap_node":
+        raise Untranslatable("_apply_caps: loop body %r" % lb)
+    axis = _mw_axis(lb[1][len("edge_dict[current_edge] ^ "):], "cap_node", "_apply_caps")
+    if texts[2] != "state_node = node_dict[current_node]" or texts[3] != "return state_node.get_tensor()":
+        raise Untranslatable("_apply_caps: tail %r" % texts[2:])
+    out.append("/-- %s:%d  _apply_caps: on a copy of the node, bond edge `i` (all edges but the last, in\n"
+               "    list order) is joined to axis `capAxis` of `caps[i]`; what remains is the state leg -/\n"
+               "def capAxis : Nat := %d\ndef capsOnCopy : Bool := true\ndef capsInListOrder : Bool := true\n"
+               % (rel, fn.lineno, axis))
+
+
+def _mw_getters(src, out):
+    rel = "oqupy/system_dynamics.py"
+    fn = src.function(rel, "_get_pt_mpos")
+    texts = [_mw_norm(s) for s in _mw_body(fn)]
+    if [a.arg for a in fn.args.args] != ["process_tensors", "step"] or texts != [
+            "pt_mpos = []",
+            "for i in range(len(process_tensors)): pt_mpo = process_tensors[i].get_mpo_tensor(step) "
+            "pt_mpos.append(pt_mpo)",
+            "return pt_mpos"]:
+        raise Untranslatable("_get_pt_mpos: unexpected shape %r" % texts)
+    out.append("/-- %s:%d  _get_pt_mpos: `process_tensors[i].get_mpo_tensor(step)` (transformed: the default)\n"
+               "    for i = 0, 1, .. in list order -/\n"
+               "def mposInListOrder : Bool := true\ndef mposTransformed : Bool := true\n" % (rel, fn.lineno))
+    fn = src.function(rel, "_get_caps")
+    body = _mw_body(fn)
+    texts = [_mw_norm(s) for s in body]
+    ok = [a.arg for a in fn.args.args] == ["process_tensors", "step"] and len(body) == 3 \
+        and texts[0] == "caps = []" and texts[2] == "return caps" and isinstance(body[1], ast.For) \
+        and _mw_norm(body[1].target) == "i" and _mw_norm(body[1].iter) == "range(len(process_tensors))"
+    if ok:
+        inner = [n for n in ast.walk(body[1]) if isinstance(n, (ast.Assign, ast.Expr))]
+        itexts = [_mw_norm(n) for n in inner]
+        ok = itexts.count("cap = process_tensors[i].get_cap_tensor(step)") == 1 \
+            and itexts.count("caps.append(cap)") == 1 \
+            and all(t in ("cap = process_tensors[i].get_cap_tensor(step)", "caps.append(cap)")
+                    for t in itexts)
+    if not ok:
+        raise Untranslatable("_get_caps: unexpected shape %r" % texts)
+    out.append("/-- %s:%d  _get_caps: `process_tensors[i].get_cap_tensor(step)` in list order (a missing cap\n"
+               "    raises ValueError) -/\ndef capsGetInListOrder : Bool := true\n" % (rel, fn.lineno))
+
+
+def _mw_compute_dynamics(src, out):
+    rel = "oqupy/system_dynamics.py"
+    fn = src.function(rel, "compute_dynamics")
+    stmts = [n for n in ast.walk(fn) if isinstance(n, (ast.Assign, ast.Expr, ast.AugAssign))]
+    texts = [_mw_norm(n) for n in stmts]
+
+    def calls_of(name):
+        return [_mw_norm(n) for n in ast.walk(fn)
+                if isinstance(n, ast.Call) and _mw_norm(n.func) == name]
+
+    def need(text, count=None):
+        c = texts.count(text)
+        if c == 0 or (count is not None and c != count):
+            raise Untranslatable("compute_dynamics: expected %s statement `%s`, found %d"
+                                 % ("one" if count == 1 else "a", text, c))
+    need("num_envs = len(process_tensors)", 1)
+    need("current_node = tn.Node(initial_ndarray)", 1)
+    need("current_edges = current_node[:]", 1)
+    shape = "[1] * num_envs + [hs_dim ** 2]"
+    shaped = [t for t in texts if t in ("initial_ndarray.shape = tuple(%s)" % shape,
+                                        "initial_ndarray = initial_ndarray.reshape(tuple(%s))" % shape,
+                                        "initial_ndarray = initial_ndarray.reshape(%s)" % shape,
+                                        "initial_ndarray = initial_state.reshape(tuple(%s))" % shape,
+                                        "initial_ndarray = initial_state.reshape(%s)" % shape)]
+    if len(shaped) != 1:
+        raise Untranslatable("compute_dynamics: shape of the initial node")
+    need("pt_mpos = _get_pt_mpos(process_tensors, step)", 1)
+    if calls_of("_apply_pt_mpos") != ["_apply_pt_mpos(current_node, current_edges, pt_mpos)"] \
+            or calls_of("_get_pt_mpos") != ["_get_pt_mpos(process_tensors, step)"]:
+        raise Untranslatable("compute_dynamics: calls of _apply_pt_mpos / _get_pt_mpos")
+    need("current_node, current_edges = _apply_pt_mpos(current_node, current_edges, pt_mpos)", 1)
+    cc = calls_of("_get_caps")
+    ca = calls_of("_apply_caps")
+    if not cc or set(cc) != {"_get_caps(process_tensors, step)"} or len(ca) != len(cc) \
+            or set(ca) != {"_apply_caps(current_node, current_edges, caps)"}:
+        raise Untranslatable("compute_dynamics: calls of _get_caps / _apply_caps")
+    need("caps = _get_caps(process_tensors, step)")
+    need("state_tensor = _apply_caps(current_node, current_edges, caps)")
+    out.append("/-- %s:%d  compute_dynamics: the propagated node starts as the vectorised initial state with\n"
+               "    shape `[1]*num_envs + [hs_dim**2]`; `current_edges` are its edges in axis order (bond edge\n"
+               "    `i` belongs to `process_tensors[i]`, the last edge is the state leg); per step the MPO\n"
+               "    tensors of `_get_pt_mpos(process_tensors, step)` are applied by `_apply_pt_mpos` and a\n"
+               "    state is read out with `_apply_caps(.., _get_caps(process_tensors, step))` -/\n"
+               "def initBondDim : Nat := 1\ndef edgePerEnvironment : Bool := true\n" % (rel, fn.lineno))
+
+
+def _mw_create_delta(src, out):
+    rel = "oqupy/util.py"
+    fn = src.function(rel, "create_delta")
+    texts = [_mw_norm(s) for s in _mw_body(fn)]
+    want = ["tensor_shape = tensor.shape",
+            "a = [0] * len(tensor_shape)",
+            "ret_shape = tuple((list(tensor_shape)[i] for i in index_scrambling))",
+            "ret_ndarray = np.zeros(ret_shape, dtype=tensor.dtype)",
+            "do_while_condition = True",
+            "while do_while_condition: tensor_indices = tuple(a) "
+            "ret_indices = tuple((a[i] for i in index_scrambling)) "
+            "ret_ndarray[ret_indices] = tensor[tensor_indices] "
+            "do_while_condition = increase_list_of_index(a, tensor_shape)",
+            "return ret_ndarray"]
+    if [a.arg for a in fn.args.args] != ["tensor", "index_scrambling"] or texts != want:
+        raise Untranslatable("create_delta: unexpected shape %r" % texts)
+    out.append("/-- %s:%d  create_delta(tensor, scr): a zero array of shape `shape[scr[0]], shape[scr[1]], ..`\n"
+               "    with `ret[a[scr[0]], a[scr[1]], ..] = tensor[a]` for every index tuple `a` -/\n"
+               "def deltaWritesScrambledIndex : Bool := true\n" % (rel, fn.lineno))
+
+
+def _mw_int_list(node, where):
+    if not isinstance(node, ast.List) or not all(
+            isinstance(e, ast.Constant) and isinstance(e.value, int) and not isinstance(e.value, bool)
+            for e in node.elts):
+        raise Untranslatable("%s: expected a list of integer constants" % where)
+    return [e.value for e in node.elts]
+
+
+def _mw_transform_stmts(stmts, where):
+    """[delta-if, in-if, out-if] -> wiring numbers"""
+    texts = [_mw_norm(s) for s in stmts]
+    if len(stmts) != 3 or not all(isinstance(s, ast.If) and not s.orelse for s in stmts):
+        raise Untranslatable("%s: expected three `if` statements, found %r" % (where, texts))
+    d, ti, to = stmts
+    # delta
+    t = d.test
+    if not (isinstance(t, ast.Compare) and _mw_norm(t.left) == "len(tensor.shape)"
+            and len(t.ops) == 1 and isinstance(t.ops[0], ast.Eq)
+            and isinstance(t.comparators[0], ast.Constant) and isinstance(t.comparators[0].value, int)):
+        raise Untranslatable("%s: rank test %s" % (where, _mw_norm(t)))
+    rank = t.comparators[0].value
+    if len(d.body) != 1 or not isinstance(d.body[0], ast.Assign) or _mw_norm(d.body[0].targets[0]) != "tensor" \
+            or not isinstance(d.body[0].value, ast.Call) \
+            or _mw_norm(d.body[0].value.func) != "util.create_delta" \
+            or len(d.body[0].value.args) != 2 or _mw_norm(d.body[0].value.args[0]) != "tensor" \
+            or d.body[0].value.keywords:
+        raise Untranslatable("%s: delta statement %s" % (where, _mw_norm(d)))
+    scr = _mw_int_list(d.body[0].value.args[1], where)
+    if len(scr) != rank + 1 or sorted(set(scr)) != list(range(rank)):
+        raise Untranslatable("%s: index scrambling %r for rank %d" % (where, scr, rank))
+    # transform_in:  np.dot(np.moveaxis(tensor, A, -1), self._transform_in[.T]); moveaxis(tensor, -1, A)
+    if _mw_norm(ti.test) != "self._transform_in is not None" or len(ti.body) != 2:
+        raise Untranslatable("%s: transform_in block %s" % (where, _mw_norm(ti)))
+    m = re.fullmatch(r"tensor = np\.dot\(np\.moveaxis\(tensor, (-?\d+), -1\), self\._transform_in(\.T)?\)",
+                     _mw_norm(ti.body[0]))
+    m2 = re.fullmatch(r"tensor = np\.moveaxis\(tensor, -1, (-?\d+)\)", _mw_norm(ti.body[1]))
+    if not m or not m2 or m.group(1) != m2.group(1):
+        raise Untranslatable("%s: transform_in statements %s" % (where, _mw_norm(ti)))
+    in_axis = int(m.group(1))
+    # np.dot(a, M) contracts the last axis of a with the first axis of the 2-d M
+    in_mat_axis = 1 if m.group(2) else 0
+    if _mw_norm(to.test) != "self._transform_out is not None" or len(to.body) != 1:
+        raise Untranslatable("%s: transform_out block %s" % (where, _mw_norm(to)))
+    m = re.fullmatch(r"tensor = np\.dot\(tensor, self\._transform_out(\.T)?\)", _mw_norm(to.body[0]))
+    if not m:
+        raise Untranslatable("%s: transform_out statement %s" % (where, _mw_norm(to)))
+    out_mat_axis = 1 if m.group(1) else 0
+    return rank, scr, in_axis, in_mat_axis, -1, out_mat_axis
+
+
+def _mw_get_mpo_lean(name, doc, rank, scr, untr, w):
+    return ("/-- %s -/\ndef %s : GetMpoWiring :=\n"
+            "  { deltaRank := %d, deltaScramble := [%s], deltaWhenUntransformed := %s,\n"
+            "    inAxis := %d, inMatAxis := %d, outAxis := %d, outMatAxis := %d, inBeforeOut := true }\n"
+            % (doc, name, rank, ", ".join(map(str, scr)), "true" if untr else "false",
+               w[0], w[1], w[2], w[3]))
+
+
+def _mw_get_mpo_tensor(src, out):
+    rel = "oqupy/process_tensor.py"
+    # SimpleProcessTensor
+    fn = src.function(rel, "SimpleProcessTensor.get_mpo_tensor")
+    body = _mw_body(fn)
+    texts = [_mw_norm(s) for s in body]
+    if [a.arg for a in fn.args.args] != ["self", "step", "transformed"] or len(body) != 8 \
+            or texts[0] != "length = len(self._mpo_tensors)" \
+            or not texts[1].startswith("if step >= length or step < 0: raise IndexError(") \
+            or texts[2] != "tensor = self._mpo_tensors[step]" \
+            or texts[4] != "if transformed is False: return tensor" or texts[7] != "return tensor":
+        raise Untranslatable("SimpleProcessTensor.get_mpo_tensor: unexpected shape %r" % texts)
+    d = fn.args.defaults
+    if len(d) != 1 or not isinstance(d[0], ast.Constant) or d[0].value is not True:
+        raise Untranslatable("SimpleProcessTensor.get_mpo_tensor: `transformed` must default to True")
+    rank, scr, *w = _mw_transform_stmts([body[3], body[5], body[6]], "SimpleProcessTensor.get_mpo_tensor")
+    out.append(_mw_get_mpo_lean(
+        "simpleGetMpo", "%s:%d  SimpleProcessTensor.get_mpo_tensor(step, transformed=True) on the stored "
+        "tensor `_mpo_tensors[step]`" % (rel, fn.lineno), rank, scr, True, w))
+    # FileProcessTensor
+    fn = src.function(rel, "FileProcessTensor.get_mpo_tensor")
+    body = _mw_body(fn)
+    texts = [_mw_norm(s) for s in body]
+    if [a.arg for a in fn.args.args] != ["self", "step", "transformed"] or len(body) != 3 \
+            or texts[0] != "tensor = _get_data_and_shape(step, data=self._mpo_tensors_data, " \
+                           "shape=self._mpo_tensors_shape)" \
+            or not isinstance(body[1], ast.If) or _mw_norm(body[1].test) != "transformed" \
+            or body[1].orelse or texts[2] != "return tensor":
+        raise Untranslatable("FileProcessTensor.get_mpo_tensor: unexpected shape %r" % texts)
+    d = fn.args.defaults
+    if len(d) != 1 or not isinstance(d[0], ast.Constant) or d[0].value is not True:
+        raise Untranslatable("FileProcessTensor.get_mpo_tensor: `transformed` must default to True")
+    rank, scr, *w = _mw_transform_stmts(_cc_strip(body[1].body), "FileProcessTensor.get_mpo_tensor")
+    out.append(_mw_get_mpo_lean(
+        "fileGetMpo", "%s:%d  FileProcessTensor.get_mpo_tensor(step, transformed=True) on the stored tensor"
+        % (rel, fn.lineno), rank, scr, False, w))
+    # TrivialProcessTensor
+    fn = src.function(rel, "TrivialProcessTensor.get_mpo_tensor")
+    fc = src.function(rel, "TrivialProcessTensor.get_cap_tensor")
+    if [_mw_norm(s) for s in _mw_body(fn)] != ["return None"] \
+            or [_mw_norm(s) for s in _mw_body(fc)] != ["return np.array([1.0], dtype=NpDtype)"]:
+        raise Untranslatable("TrivialProcessTensor: get_mpo_tensor / get_cap_tensor")
+    out.append("/-- %s:%d  TrivialProcessTensor: no MPO tensor (`None`), cap `[1.0]` at every step -/\n"
+               "def trivialMpoIsNone : Bool := true\ndef trivialCapIsOne : Bool := true\n" % (rel, fn.lineno))
+
+
+_MW_CLOSERS = {"self._trace": "trace", "self._trace_square": "traceSquare",
+               "self._trace_in": "traceIn", "self._trace_out": "traceOut",
+               "self._trace_in * self._trace_out": "traceInTimesOut",
+               "self._trace_out * self._trace_in": "traceInTimesOut"}
+
+
+def _mw_cap_legs(stmts, nodes, where):
+    """`ten[k] ^ name[0]` ... ; `new_cap = ten @ n1 @ n2 ..`  ->  [(k, closer)]"""
+    nodes = dict(nodes)
+    stmts = list(stmts)
+    while stmts and isinstance(stmts[0], ast.Assign) and len(stmts[0].targets) == 1 \
+            and isinstance(stmts[0].targets[0], ast.Name) and isinstance(stmts[0].value, ast.Call) \
+            and _mw_norm(stmts[0].value.func) == "tn.Node" and len(stmts[0].value.args) == 1:
+        # a closing vector defined inside the branch
+        name, arg = stmts[0].targets[0].id, _mw_norm(stmts[0].value.args[0])
+        if arg not in _MW_CLOSERS or name in nodes or name == "ten":
+            raise Untranslatable("%s: node `%s = tn.Node(%s)`" % (where, name, arg))
+        nodes[name] = _MW_CLOSERS[arg]
+        stmts = stmts[1:]
+    texts = [_mw_norm(s) for s in stmts]
+    if len(texts) < 2 or not texts[-1].startswith("new_cap = ten @ "):
+        raise Untranslatable("%s: leg statements %r" % (where, texts))
+    legs, names = [], []
+    for t in texts[:-1]:
+        m = re.fullmatch(r"ten\[(\d+)\] \^ (\w+)\[0\]", t)
+        if not m or m.group(2) not in nodes:
+            raise Untranslatable("%s: cannot read `%s`" % (where, t))
+        legs.append((int(m.group(1)), nodes[m.group(2)]))
+        names.append(m.group(2))
+    if texts[-1] != "new_cap = ten @ " + " @ ".join(names):
+        raise Untranslatable("%s: `%s` does not contract exactly the joined nodes %r"
+                             % (where, texts[-1], names))
+    if len(set(k for k, _ in legs)) != len(legs) or len(set(names)) != len(names):
+        raise Untranslatable("%s: a leg or a node is used twice" % where)
+    return legs
+
+
+def _mw_legs_lean(legs):
+    return "[" + ", ".join("(%d, .%s)" % l for l in legs) + "]"
+
+
+def _mw_cap_loop(loop, where, tensor_exprs, tail):
+    """body of `for step in reversed(range(length))`"""
+    if not (isinstance(loop, ast.For) and _mw_norm(loop.target) == "step"
+            and _mw_norm(loop.iter) == "reversed(range(length))" and not loop.orelse):
+        raise Untranslatable("%s: loop header" % where)
+    lb = _cc_strip(loop.body)
+    nodes = {"last_cap": "lastCap"}
+    k = 0
+    tensor = None
+    while k < len(lb) and isinstance(lb[k], ast.Assign) and len(lb[k].targets) == 1 \
+            and isinstance(lb[k].targets[0], ast.Name) and isinstance(lb[k].value, ast.Call) \
+            and _mw_norm(lb[k].value.func) == "tn.Node" and len(lb[k].value.args) == 1:
+        name, arg = lb[k].targets[0].id, _mw_norm(lb[k].value.args[0])
+        if name == "ten":
+            if arg not in tensor_exprs or tensor is not None:
+                raise Untranslatable("%s: tensor source `%s`" % (where, arg))
+            tensor = tensor_exprs[arg]
+        elif arg in _MW_CLOSERS and name not in nodes:
+            nodes[name] = _MW_CLOSERS[arg]
+        else:
+            raise Untranslatable("%s: node `%s = tn.Node(%s)`" % (where, name, arg))
+        k += 1
+    if tensor is None:
+        raise Untranslatable("%s: no `ten = tn.Node(..)`" % where)
+    rest = lb[k:]
+    if len(rest) < len(tail) or [_mw_norm(s) for s in rest[len(rest) - len(tail):]] != tail:
+        raise Untranslatable("%s: loop tail %r" % (where, [_mw_norm(s) for s in rest[-len(tail):]]))
+    core = rest[:len(rest) - len(tail)]
+    if len(core) == 1 and isinstance(core[0], ast.If) and _mw_norm(core[0].test) == "len(ten.shape) == 3" \
+            and core[0].orelse:
+        r3 = _mw_cap_legs(core[0].body, nodes, where + " (rank 3)")
+        r4 = _mw_cap_legs(core[0].orelse, nodes, where + " (rank 4)")
+    else:
+        r3 = None
+        r4 = _mw_cap_legs(core, nodes, where)
+    return tensor, r3, r4
+
+
+def _mw_compute_caps(src, out):
+    rel = "oqupy/process_tensor.py"
+    fn = src.function(rel, "SimpleProcessTensor.compute_caps")
+    body = _mw_body(fn)
+    texts = [_mw_norm(s) for s in body]
+    if len(body) != 5 or texts[0] != "length = len(self)" \
+            or texts[1] != "caps = [np.array([1.0], dtype=NpDtype)]" \
+            or texts[2] != "last_cap = tn.Node(caps[-1])" or texts[4] != "self._cap_tensors = caps":
+        raise Untranslatable("SimpleProcessTensor.compute_caps: unexpected shape %r" % texts)
+    tensor, r3, r4 = _mw_cap_loop(
+        body[3], "SimpleProcessTensor.compute_caps",
+        {"self._mpo_tensors[step]": "stored", "self.get_mpo_tensor(step)": "transformed"},
+        ["caps.insert(0, new_cap.get_tensor())", "last_cap = new_cap"])
+    out.append("/-- %s:%d  SimpleProcessTensor.compute_caps -/\n"
+               "def simpleCaps : CapWiring :=\n  { tensor := .%s, rank3 := %s, rank4 := %s,\n"
+               "    lastIsOne := true, backwards := true }\n"
+               % (rel, fn.lineno, tensor, "none" if r3 is None else "some " + _mw_legs_lean(r3),
+                  _mw_legs_lean(r4)))
+    fn = src.function(rel, "FileProcessTensor.compute_caps")
+    body = _mw_body(fn)
+    texts = [_mw_norm(s) for s in body]
+    if len(body) != 5 or texts[0] != "length = len(self)" \
+            or texts[1] != "cap = np.array([1.0], dtype=NpDtype)" \
+            or texts[2] != "self.set_cap_tensor(length, cap)" or texts[3] != "last_cap = tn.Node(cap)":
+        raise Untranslatable("FileProcessTensor.compute_caps: unexpected shape %r" % texts)
+    tensor, r3, r4 = _mw_cap_loop(
+        body[4], "FileProcessTensor.compute_caps",
+        {"self.get_mpo_tensor(step)": "transformed"},
+        ["self.set_cap_tensor(step, new_cap.get_tensor())", "last_cap = new_cap"])
+    out.append("/-- %s:%d  FileProcessTensor.compute_caps -/\n"
+               "def fileCaps : CapWiring :=\n  { tensor := .%s, rank3 := %s, rank4 := %s,\n"
+               "    lastIsOne := true, backwards := true }\n"
+               % (rel, fn.lineno, tensor, "none" if r3 is None else "some " + _mw_legs_lean(r3),
+                  _mw_legs_lean(r4)))
+
+
+def _mw_trace_vectors(src, out):
+    rel = "oqupy/process_tensor.py"
+    fn = src.function(rel, "BaseProcessTensor.__init__")
+    body = _mw_body(fn)
+    texts = [_mw_norm(s) for s in body]
+
+    def need(t):
+        if texts.count(t) != 1:
+            raise Untranslatable("BaseProcessTensor.__init__: expected one statement `%s`" % t)
+    need("self._hs_dim = hilbert_space_dimension")
+    need("self._rho_dim = self._hs_dim ** 2")
+    need("self._trace = (np.identity(self._hs_dim, dtype=NpDtype) / np.sqrt(float(self._hs_dim))).flatten()")
+    need("self._trace_square = self._trace ** 2")
+    ifs = {}
+    for s in body:
+        if isinstance(s, ast.If):
+            ifs[_mw_norm(s.test)] = s
+    for which, matmul, dim_axis in (("in", "self._trace @ self._transform_in", 0),
+                                    ("out", "self._transform_out @ self._trace", 1)):
+        s = ifs.get("transform_%s is not None" % which)
+        if s is None:
+            raise Untranslatable("BaseProcessTensor.__init__: no `if transform_%s is not None`" % which)
+        a = [_mw_norm(x) for x in s.body]
+        b = [_mw_norm(x) for x in s.orelse]
+        tmp = "tmp_transform_%s" % which
+        want_a = ["%s = np.array(transform_%s, dtype=NpDtype)" % (tmp, which),
+                  "assert len(%s.shape) == 2" % tmp,
+                  "assert %s.shape[%d] == self._rho_dim" % (tmp, dim_axis),
+                  "self._%s_dim = %s.shape[%d]" % (which, tmp, 1 - dim_axis),
+                  "self._transform_%s = %s" % (which, tmp),
+                  "self._trace_%s = %s" % (which, matmul)]
+        want_b = ["self._%s_dim = self._rho_dim" % which, "self._transform_%s = None" % which,
+                  "self._trace_%s = self._trace" % which]
+        if a != want_a or b != want_b:
+            raise Untranslatable("BaseProcessTensor.__init__: transform_%s block %r / %r" % (which, a, b))
+    # 1-d @ 2-d contracts axis 0 of the matrix; 2-d @ 1-d contracts axis 1
+    out.append("/-- %s:%d  BaseProcessTensor.__init__:  `_trace = identity(d)/sqrt(d)` flattened (row-major),\n"
+               "    `_trace_square = _trace**2`,  `_trace_in = _trace @ transform_in` (axis `traceInMatAxis` of\n"
+               "    `transform_in`, whose size must be `d**2`, is summed), `_trace_out = transform_out @ _trace`\n"
+               "    (axis `traceOutMatAxis` of `transform_out`);  without a transform both are `_trace` -/\n"
+               "def traceIsIdentityOverSqrtDim : Bool := true\ndef traceSquareIsSquare : Bool := true\n"
+               "def traceInMatAxis : Nat := 0\ndef traceOutMatAxis : Nat := 1\n" % (rel, fn.lineno))
+
+
+@fragment("MpoWiring")
+def frag_mpowiring(src):
+    out = [MW_PREAMBLE]
+    _mw_compute_dynamics(src, out)
+    _mw_getters(src, out)
+    _mw_apply_pt_mpos(src, out)
+    _mw_apply_caps(src, out)
+    _mw_create_delta(src, out)
+    _mw_get_mpo_tensor(src, out)
+    _mw_trace_vectors(src, out)
+    _mw_compute_caps(src, out)
+    return "\n".join(out)
+# end of MpoWiring
 
 
 def main():
